@@ -58,6 +58,23 @@ def interface_gaps():
     return gaps
 
 
+_DOC_PARAMS = {}
+
+
+def documented_parameters(mn, n):
+    """the parameter names of the wrapper's `def` in its interface module (what a user reads), or None"""
+    import ast
+    import inspect
+    if mn not in _DOC_PARAMS:
+        modname = f"bloqade.geometry.dialects.grid._interface" if mn == "grid" else f"bloqade.shuttle.dialects.{mn}._interface"
+        try:
+            tree = ast.parse(inspect.getsource(importlib.import_module(modname)))
+            _DOC_PARAMS[mn] = {d.name: [a.arg for a in d.args.posonlyargs + d.args.args] for d in tree.body if isinstance(d, ast.FunctionDef)}
+        except Exception:
+            _DOC_PARAMS[mn] = {}
+    return _DOC_PARAMS[mn].get(n)
+
+
 def one_statement_kernels(kind, mn, n, binding):
     """sources of kernels of `kind` whose body is one use of the wrapper, in every argument form: operands are untyped
     kernel parameters; attributes get a literal of their declared type - (a) only the required ones, (b) all of them by
@@ -84,6 +101,11 @@ def one_statement_kernels(kind, mn, n, binding):
         forms.append(("every attribute by keyword", args + [f"{an}={lit}" for an, lit in req + opt]))
         if not f.regions:
             forms.append(("every attribute positionally", args + [lit for an, lit in req + opt]))
+    # every operand bound by the keyword the wrapper's own `def` documents (read from the interface module's source)
+    doc = documented_parameters(mn, n)
+    # (the grid interface belongs to bloqade.geometry: its parameter names are documented there, not in this repository)
+    if doc is not None and mn != "grid" and params and len(doc) >= len(params) and not f.regions:
+        forms.append(("operands by their documented keywords", [f"{doc[i]}={a}" for i, a in enumerate(args)] + [f"{an}={lit}" for an, lit in req]))
     out = []
     for form, a in forms:
         call = f"{mn}.{n}({', '.join(a)})"
@@ -152,6 +174,42 @@ def try_define(src, **extra):
         return "accepted", ""
     except Exception as e:
         return "rejected", type(e).__name__ + ": " + str(e).strip().splitlines()[0][:100] if str(e).strip() else type(e).__name__
+
+
+HISTORY_KERNELS = {
+    "auto block calling a tweezer kernel directly": "    with schedule.auto():\n        kk(x, 2.0)\n        kk(1.0, y)\n",
+    "parallel block of device calls": "    f = schedule.device_fn(kk, [0], [0])\n    with schedule.parallel():\n        f(x, 2.0)\n        schedule.reverse(f)(1.0, y)\n",
+    "auto block of device calls": "    f = schedule.device_fn(kk, [0], [0])\n    with schedule.auto():\n        f(x, 2.0)\n        f(y, 1.0)\n",
+    "device call, gate, fill, measurement": "    f = schedule.device_fn(kk, [0], [0])\n    f(x, y)\n    gate.global_rz(0.5)\n    init.fill([CONST_GRID])\n    measure.measure((CONST_GRID,))\n",
+}
+
+
+def definition_histories(ctx):
+    """whether a kernel is accepted depends on its vocabulary, not on what was defined before it in the same process: the same accepted
+    move kernels (scheduling blocks over ONE tweezer kernel, in every block form) defined again and again, in every order"""
+    import itertools
+    tw = DEVICE_CALL_SRC.split("@move")[0]
+    try:
+        kk = kernels.define(tw)["kk"]
+    except Exception as e:
+        ctx.obligation("the tweezer kernel of the definition histories is accepted", False, f"{type(e).__name__}: {e}"[:200])
+        return
+    names = list(HISTORY_KERNELS)
+    n = 0
+    for order in list(itertools.permutations(range(len(names)), 2)) + [(i, i) for i in range(len(names))]:
+        hist = list(order) + [order[0]]
+        for pos, i in enumerate(hist):
+            src = "@move\ndef main(x: float, y: float):\n" + HISTORY_KERNELS[names[i]]
+            got, err = try_define(src, kk=kk)
+            ctx.evaluations += 1
+            n += 1
+            if got != "accepted":
+                ctx.fail({"kind": "acceptance-depends-on-history", "kernel": names[i], "position": pos}, {"definition_history": [names[j] for j in hist], "position": pos},
+                         f"@move kernel ({names[i]}) is rejected ({err}) as definition {pos} of the history {[names[j] for j in hist]}; its vocabulary is the documented one")
+                break
+        else:
+            ctx.nt(("definition-history",) + tuple(order))
+    ctx.count("move kernels defined in histories (every ordered pair of four block forms over one tweezer kernel, first one defined again)", n)
 
 
 def option_specs():
@@ -381,6 +439,7 @@ def run(ctx):
     ctx.count("accepted cells re-defined after refused definitions", n_again)
     # ---- the decorators' arch_spec= option does not change the vocabulary ----
     arch_spec_option(ctx, ws, wcat)
+    definition_histories(ctx)
     # ---- the tracer's guard ----
     S = tweezer_prog.harness_spec()
     from bloqade.shuttle.codegen.taskgen import TraceInterpreter
@@ -431,6 +490,17 @@ def run(ctx):
 
 
 def replay(data):
+    if "definition_history" in data["input"]:
+        class C:
+            def __init__(s): s.fails, s.evaluations = [], 0
+            def fail(s, sig, rep, what): s.fails.append(what)
+            def nt(s, *a): pass
+            def count(s, *a): pass
+            def obligation(s, n, ok, log=""):
+                if not ok: s.fails.append(n)
+        c = C()
+        definition_histories(c)
+        return bool(c.fails), (c.fails or ["every definition of the history is accepted"])[0][:200]
     inp = data["input"]
     if "src" not in inp:
         return True, "re-run bin/check C17 (guard table)"
